@@ -70,7 +70,7 @@ size_t li_base64_dec(unsigned char * const result, const size_t out_length, cons
     /* permit base64 string ending with pad chars (ch == -3); not checking
      * for one or two pad chars + optional whitespace reaches in_length) */
     /* permit base64 string truncated before in_length (*un == '\0') */
-    switch (un == end || ch == -3 || *un != '\0' ? (i & 3) : 1) {
+    switch (un == end || ch == -3 || *un == '\0' ? (i & 3) : 1) {
       case 3:
         result[out_pos++] = (out4 >> 10);
         out4 <<= 2;
